@@ -1,4 +1,5 @@
 """C12 — Expansion cutoff never shrinks and keeps headroom."""
+from checks import big_scale
 from checks import full_step
 from checks import pure_fns
 from checks import extra_audits
@@ -80,4 +81,6 @@ def main(ck):
     ck.assumptions.append("a user who lowers the cutoff by hand with set_cutoff below the container length leaves the domain (Inv) of the run theorems")
     full_step.run(ck)   # whole-timestep exact trajectories, Ising and generic sampler
     api_cov.run(ck, "c12")   # otherwise unexercised public API, model-free oracles of this property
+    big_scale.run(ck, "longstring.schedule")   # large-scale regime (>65536 bonds/ops/slots, release semantics): model-free oracles of the property statements
+    big_scale.run(ck, "longstring.ladder_cutoff")   # large-scale regime (>65536 bonds/ops/slots, release semantics): model-free oracles of the property statements
     return ck.finish(RULE)
